@@ -671,6 +671,7 @@ pub struct Runner {
 	max_height_told: u32,
 	know: BTreeSet<String>,
 	was_buried: HashSet<Txid>,
+	buried_removed: bool,
 	bcast_cur: usize,
 	all_hashes: HashSet<[u8; 32]>,
 	expiries: Vec<u32>,
@@ -740,6 +741,7 @@ impl Runner {
 			max_height_told: 0,
 			know: BTreeSet::new(),
 			was_buried: HashSet::new(),
+			buried_removed: false,
 			bcast_cur: 0,
 			all_hashes,
 			expiries,
@@ -896,6 +898,14 @@ impl Runner {
 			common += 1;
 		}
 		if self.mirror.len() > common {
+			for (_, _, rel) in self.mirror[common..].iter() {
+				if rel.iter().any(|t| self.was_buried.contains(t)) {
+					// removed after it had reached the anti-reorg depth: the library treats it as final for good (a
+					// re-confirmation is skipped as "already confirmed"), the states need not converge again
+					self.buried_removed = true;
+					self.out.labels.insert("reorg-removes-buried-tx".into());
+				}
+			}
 			self.mirror.truncate(common);
 			self.obs.disconnected_since_sample = true;
 		}
@@ -927,7 +937,6 @@ impl Runner {
 					}
 				}
 				self.mirror.push((b.block_hash(), h, rel));
-				self.max_height_told = self.max_height_told.max(h);
 				// channel transactions that now have ANTI_REORG_DELAY confirmations on the chain O was told
 				if h + 1 >= ANTI_REORG_DELAY {
 					let deep = h + 1 - ANTI_REORG_DELAY;
@@ -954,11 +963,23 @@ impl Runner {
 				confs.insert(*t, tip - h + 1);
 			}
 		}
-		self.was_buried.iter().any(|t| confs.get(t).cloned().unwrap_or(0) < ANTI_REORG_DELAY)
+		self.buried_removed || self.was_buried.iter().any(|t| confs.get(t).cloned().unwrap_or(0) < ANTI_REORG_DELAY)
 	}
 
 	fn after_o_call(&mut self) -> Result<(), Failure> {
 		self.resync_told();
+		{
+			// the highest block the library objects themselves have been told about (skipped best blocks do not count)
+			let nd = &self.sim.w.nodes[self.o];
+			let mut h = nd.node.current_best_block().height;
+			let cm = &nd.chain_monitor.chain_monitor;
+			for id in cm.list_monitors() {
+				if let Ok(m) = cm.get_monitor(id) {
+					h = h.max(m.current_best_block().height);
+				}
+			}
+			self.max_height_told = self.max_height_told.max(h);
+		}
 		self.pump_o()?;
 		Ok(())
 	}
@@ -1321,6 +1342,14 @@ impl Runner {
 			},
 			TEv::Claim(p) => {
 				self.say(format!("#{} CLAIM pay#{}", idx, p));
+				let synced = self.o_chain_hashes() == self.gchain.iter().map(|b| b.block_hash()).collect::<Vec<_>>() && self.aligned();
+				if !synced && *p < self.sim.pays.len() && (self.sim.pays[*p].to == self.o || self.sim.pays[*p].path_nodes.contains(&self.o)) {
+					// an off-chain input (claim_funds / a fulfil arriving) reaches O while the library's view of the chain
+					// lags: what it does with it (e.g. whether the HTLC was already failed back for being too close to its
+					// expiry) depends on more than the chain it is told about eventually
+					self.know.insert(format!("claim-while-not-synced pay#{}", p));
+					self.out.labels.insert("claim-arrives-while-not-synced".into());
+				}
 				if *p < self.sim.pays.len() && self.sim.pays[*p].state == PayState::Claimable {
 					self.sim.claim(*p);
 				} else {
@@ -1579,6 +1608,13 @@ impl Runner {
 					}
 					for _ in 0..d {
 						self.sim.chain.disconnect_tip();
+					}
+					{
+						// ChainSim::disconnect_tip restores outputs that were created *and* spent inside the disconnected
+						// block (its undo record re-inserts every spent output): drop outputs of unconfirmed transactions
+						let ch = &mut self.sim.chain;
+						let confirmed = &ch.confirmed;
+						ch.utxo.retain(|op, _| confirmed.contains_key(&op.txid));
 					}
 					let to_height = self.sim.chain.height();
 					self.sim.rec(SEvent::Reorged { to_height });
